@@ -1,4 +1,7 @@
 import DendroModel.Model.C15
+import DendroModel.Model.C15Ext
+import DendroModel.Theory.C15Ext
+import DendroModel.Theory.C15Age
 /-! C15 — property theorems: every traversal machine yields exactly its defining order, for every
 tree, every start node (a start node is the root of the `T` the machine is run on) and every filter.
 Only property theorems live in `namespace DendroModel.C15` of this file; helper lemmas are in
@@ -17,7 +20,7 @@ theorem sizeL_append (a b : List T) : T.sizeL (a ++ b) = T.sizeL a + T.sizeL b :
   | cons x xs ih => simp [T.sizeL, ih]; omega
 
 theorem size_pos (t : T) : 0 < t.size := by
-  cases t; simp [T.size]; omega
+  cases t; simp [T.size]
 
 theorem size_eq (t : T) : t.size = 1 + T.sizeL t.cs := by
   cases t; simp [T.size, T.cs]
@@ -563,5 +566,239 @@ theorem inorder_each_node_once (keep : T → Bool) (t : T) (l : List T) (h : inI
 example : (preIter (fun _ => true)
     (.node 1 none none none [.node 2 (some 0) none none [], .node 3 none none none [.node 4 (some 1) none none []]])).map T.id
     = [1, 2, 3, 4] := by decide
+
+end DendroModel.C15
+
+/-! ## additions after the audit (notes/audit-h.md, section C15)
+
+Everything below is stated about the definitions the driver runs (`ageIter` with the real comparator `Frac.lt` and the
+driver's age lookup `ageOf`, `inRun`, the wrapped edge iterators, `ancIter`, the list-returning `Tree` methods), and the
+specs proved above are composed into the clauses of the statement. -/
+namespace DendroModel.C15.Aux
+open DendroModel DendroModel.C15
+
+theorem mem_nodesL_of_mem_postL {x : T} {cs : List T} (h : x ∈ postL cs) : x ∈ T.nodesL cs :=
+  (List.Perm.mem_iff (postL_perm cs)).mp h
+
+/-- the composed internal-node filter on a node whose id differs from the start's: non-leaf and passing -/
+theorem internalKeep_other (excl hasParent : Bool) (keep : T → Bool) (sid : Nat) (x : T) (h : x.id ≠ sid) :
+    internalKeep excl sid hasParent keep x = (!x.isLeaf && keep x) := by
+  have : (x.id != sid) = true := by simpa using h
+  simp [internalKeep, this, T.isLeaf]
+
+/-- the composed internal-node filter on the start node itself -/
+theorem internalKeep_self (excl hasParent : Bool) (keep : T → Bool) (t : T) :
+    internalKeep excl t.id hasParent keep t = ((!excl || hasParent) && (!t.isLeaf && keep t)) := by
+  simp [internalKeep, T.isLeaf, Bool.and_assoc]
+
+theorem start_part (excl hasParent : Bool) (keep : T → Bool) (t : T) :
+    (if internalKeep excl t.id hasParent keep t = true then [t] else [])
+      = (if (excl && !hasParent) = true then [] else [t].filter (fun x => !x.isLeaf && keep x)) := by
+  rw [internalKeep_self]
+  cases excl <;> cases hasParent <;> simp [List.filter_cons]
+
+end DendroModel.C15.Aux
+
+namespace DendroModel.C15
+open DendroModel DendroModel.C15.Aux DendroModel.C15.ExtAux DendroModel.C15.AgeAux
+
+/-- age order, for the comparator the generator really uses (`Frac.lt` on the ages, reversed when descending), any
+well-formed age assignment, both directions, with and without leaves, any filter: the output is monotone in age,
+holds every node of the subtree that passes (`include_leaves` or internal) and the filter exactly once, and nodes of
+equal age keep their pre-order positions (stability; the statement only asks for monotone age, the code gives more) -/
+theorem ageorder_spec (age : T → Frac) (hwf : ∀ x, Frac.WF (age x)) (desc incl : Bool) (keep : T → Bool) (t : T) :
+    (ageIter age desc incl keep t).Pairwise (fun a b =>
+        if desc then Frac.toRat (age b) ≤ Frac.toRat (age a) else Frac.toRat (age a) ≤ Frac.toRat (age b))
+    ∧ (ageIter age desc incl keep t).Perm ((pre t).filter (fun n => (incl || !n.cs.isEmpty) && keep n))
+    ∧ ∀ v : Rat, (ageIter age desc incl keep t).filter (fun a => decide (Frac.toRat (age a) = v))
+        = ((pre t).filter (fun n => (incl || !n.cs.isEmpty) && keep n)).filter (fun a => decide (Frac.toRat (age a) = v)) := by
+  unfold ageIter
+  simp only [preorder_spec, filter_true]
+  cases desc with
+  | false =>
+    have hlt : ∀ a b : T, (fun a b => if false = true then Frac.lt (age b) (age a) else Frac.lt (age a) (age b)) a b = true
+        ↔ Frac.toRat (age a) < Frac.toRat (age b) := by
+      intro a b; simpa using Frac.lt_iff (age a) (age b) (hwf a) (hwf b)
+    obtain ⟨h1, h2, h3⟩ := sort_filter_spec (fun a => Frac.toRat (age a)) _ hlt
+      (fun n => (incl || !n.cs.isEmpty) && keep n) (pre t)
+    exact ⟨by simpa using h1, h2, h3⟩
+  | true =>
+    have hlt : ∀ a b : T, (fun a b => if true = true then Frac.lt (age b) (age a) else Frac.lt (age a) (age b)) a b = true
+        ↔ -Frac.toRat (age a) < -Frac.toRat (age b) := by
+      intro a b
+      rw [neg_lt_neg_iff]
+      simpa using Frac.lt_iff (age b) (age a) (hwf b) (hwf a)
+    obtain ⟨h1, h2, h3⟩ := sort_filter_spec (fun a => -Frac.toRat (age a)) _ hlt
+      (fun n => (incl || !n.cs.isEmpty) && keep n) (pre t)
+    refine ⟨?_, h2, fun v => ?_⟩
+    · refine List.Pairwise.imp ?_ h1
+      intro a b hab
+      simpa using hab
+    · have h := h3 (-v)
+      simpa [neg_inj] using h
+
+/-- the same for exactly the ages the driver runs with: any list of fractions accepted by the protocol parser,
+looked up by node id (`ageOf`) -/
+theorem ageorder_driver_spec (ss : List String) (as : List Frac) (hp : ss.mapM Frac.parse = some as)
+    (desc incl : Bool) (keep : T → Bool) (t : T) :
+    (ageIter (ageOf as) desc incl keep t).Pairwise (fun a b =>
+        if desc then Frac.toRat (ageOf as b) ≤ Frac.toRat (ageOf as a) else Frac.toRat (ageOf as a) ≤ Frac.toRat (ageOf as b))
+    ∧ (ageIter (ageOf as) desc incl keep t).Perm ((pre t).filter (fun n => (incl || !n.cs.isEmpty) && keep n))
+    ∧ ∀ v : Rat, (ageIter (ageOf as) desc incl keep t).filter (fun a => decide (Frac.toRat (ageOf as a) = v))
+        = ((pre t).filter (fun n => (incl || !n.cs.isEmpty) && keep n)).filter (fun a => decide (Frac.toRat (ageOf as a) = v)) :=
+  ageorder_spec (ageOf as) (ageOf_wf as (parsed_wf ss as hp)) desc incl keep t
+
+/-- non-vacuity of `ageorder_spec`/`ageorder_driver_spec`: a list the parser accepts, hence well-formed ages -/
+example : ∀ x : T, Frac.WF (ageOf [⟨1, 2⟩, ⟨0, 1⟩, ⟨3, 4⟩] x) :=
+  ageOf_wf _ (by intro a ha; simp at ha; rcases ha with rfl | rfl | rfl <;> simp [Frac.WF])
+
+/-- in-order as the code recurses (filter applied at each yield; `TypeError` = `none` on a node with one or more
+than two children) yields left subtree, node, right subtree, filtered -/
+theorem inorder_spec (keep : T → Bool) (t : T) : inRun keep t = (inord t).map (List.filter keep) :=
+  inRun_eq keep t
+
+example : (inRun (fun x => x.id != 2) (.node 0 none none none [.node 1 none none none [], .node 2 none none none []])).map
+    (List.map T.id) = some [1, 0] := by decide
+
+/-- the independent edge machines, at full strength: exactly the edges of the nodes of the defining order whose edge
+passes the filter, in that order (`edge_iter_spec` composed with `preorder_spec`/`postorder_spec`) -/
+theorem edge_order_spec (keep : E → Bool) (t : T) :
+    preEdgeIter keep t = ((pre t).filter (fun n => keep ⟨n⟩)).map E.mk
+    ∧ postEdgeIter keep t = ((post t).filter (fun n => keep ⟨n⟩)).map E.mk := by
+  rw [(edge_iter_spec keep t).1, (edge_iter_spec keep t).2, preorder_spec, postorder_spec]
+  exact ⟨rfl, rfl⟩
+
+example : ((preEdgeIter (fun e => e.head.id != 1)
+    (.node 0 none none none [.node 1 none none none [], .node 2 none none none []])).map (fun e => e.head.id)) = [0, 2] := by
+  decide
+
+/-- the edge iterators that wrap a node iterator (level-order, leaves, in-order): exactly the edges of the nodes of
+the defining order whose edge passes the filter, in that order -/
+theorem wrapped_edge_iter_spec (keep : E → Bool) (t : T) :
+    levelEdgeIter keep t = ((bfs (height t) [t]).filter (fun n => keep ⟨n⟩)).map E.mk
+    ∧ leafEdgeIter keep t = ((T.leaves t).filter (fun n => keep ⟨n⟩)).map E.mk
+    ∧ inEdgeIter keep t = (inord t).map (fun l => (l.filter (fun n => keep ⟨n⟩)).map E.mk) := by
+  refine ⟨?_, ?_, ?_⟩
+  · unfold levelEdgeIter; rw [levelorder_spec]
+  · unfold leafEdgeIter; rw [leaf_spec]
+  · unfold inEdgeIter; rw [inorder_spec]; cases inord t <;> simp
+
+example : ((levelEdgeIter (fun _ => true)
+    (.node 0 none none none [.node 1 none none none [.node 2 none none none []], .node 3 none none none []])).map
+      (fun e => e.head.id)) = [0, 1, 3, 2] := by decide
+
+/-- internal-node variants, with the start node singled out (ids below the start differ from the start's, as in every
+tree the protocol builds): exactly the non-leaves that pass the filter, in pre-order resp. post-order, the start node
+dropped iff exclusion is requested and it has no parent — a start node with a parent is never dropped -/
+theorem internal_nodes_spec (excl hasParent : Bool) (keep : T → Bool) (t : T)
+    (hid : ∀ x ∈ T.nodesL t.cs, x.id ≠ t.id) :
+    preIter (internalKeep excl t.id hasParent keep) t
+      = (if (excl && !hasParent) = true then [] else [t].filter (fun x => !x.isLeaf && keep x))
+        ++ (T.nodesL t.cs).filter (fun x => !x.isLeaf && keep x)
+    ∧ postIter (internalKeep excl t.id hasParent keep) t
+      = (postL t.cs).filter (fun x => !x.isLeaf && keep x)
+        ++ (if (excl && !hasParent) = true then [] else [t].filter (fun x => !x.isLeaf && keep x)) := by
+  constructor
+  · rw [preorder_spec, pre, nodes_eq t, List.filter_cons, ← start_part]
+    have : (T.nodesL t.cs).filter (internalKeep excl t.id hasParent keep)
+        = (T.nodesL t.cs).filter (fun x => !x.isLeaf && keep x) :=
+      List.filter_congr (fun x hx => internalKeep_other excl hasParent keep t.id x (hid x hx))
+    rw [this]
+    split <;> simp
+  · rw [postorder_spec, post_eq t, List.filter_append, ← start_part]
+    have : (postL t.cs).filter (internalKeep excl t.id hasParent keep)
+        = (postL t.cs).filter (fun x => !x.isLeaf && keep x) :=
+      List.filter_congr (fun x hx => internalKeep_other excl hasParent keep t.id x (hid x (mem_nodesL_of_mem_postL hx)))
+    rw [this]
+    simp [List.filter_cons]
+
+/-- non-vacuity of `internal_nodes_spec`: distinct ids -/
+example : ∀ x ∈ T.nodesL (T.node 0 none none none [.node 1 none none none [.node 2 none none none []], .node 3 none none none []]).cs,
+    x.id ≠ (T.node 0 none none none [.node 1 none none none [.node 2 none none none []], .node 3 none none none []]).id := by
+  decide
+
+/-- the internal edge variants of `Tree` are the edges of the internal node variants (same composed filter) -/
+theorem internal_edge_spec (excl hasParent : Bool) (keep : T → Bool) (t : T) :
+    preEdgeIter (fun e => internalKeep excl t.id hasParent keep e.head) t
+      = (preIter (internalKeep excl t.id hasParent keep) t).map E.mk
+    ∧ postEdgeIter (fun e => internalKeep excl t.id hasParent keep e.head) t
+      = (postIter (internalKeep excl t.id hasParent keep) t).map E.mk :=
+  edge_iter_spec (fun e => internalKeep excl t.id hasParent keep e.head) t
+
+example : ((preEdgeIter (fun e => internalKeep true 0 false (fun _ => true) e.head)
+    (.node 0 none none none [.node 1 none none none [.node 2 none none none []], .node 3 none none none []])).map
+      (fun e => e.head.id)) = [1] := by decide
+
+/-- `ancestor_iter` from the node `self` with id `start`: `self` first when `inclusive` and it passes, then the
+passing members of a chain `up` such that `self :: up` is a parent chain (each entry a child of the next) ending in
+the root of the tree — i.e. every proper ancestor once, nearest first, filtered -/
+theorem ancestor_spec (keep : T → Bool) (incl : Bool) (tree : T) (start : Nat) (self : T)
+    (h : tree.find? start = some self) :
+    ∃ up : List T, ancIter keep incl tree start
+        = some ((if incl && keep self then [self] else []) ++ up.filter keep)
+      ∧ UpChain (self :: up) ∧ (self :: up).getLast? = some tree := by
+  unfold ancIter
+  cases hp : ancPath start tree with
+  | none => rw [ancPath_none start tree hp] at h; cases h
+  | some p =>
+    obtain ⟨hne, hhead, hlast, hch⟩ := ancPath_some start tree p hp
+    cases p with
+    | nil => exact absurd rfl hne
+    | cons a up =>
+      simp only [List.head?_cons, h, Option.some.injEq] at hhead
+      subst hhead
+      exact ⟨up, rfl, hch, hlast⟩
+
+/-- and a start id that is not in the tree yields no answer (the driver says `bad-start`) -/
+theorem ancestor_none (keep : T → Bool) (incl : Bool) (tree : T) (start : Nat) (h : tree.find? start = none) :
+    ancIter keep incl tree start = none := by
+  unfold ancIter
+  cases hp : ancPath start tree with
+  | none => rfl
+  | some p =>
+    obtain ⟨hne, hhead, _, _⟩ := ancPath_some start tree p hp
+    cases p with
+    | nil => exact absurd rfl hne
+    | cons a up => rw [h] at hhead; simp at hhead
+
+/-- non-vacuity of `ancestor_spec` / `ancestor_none`: a start id that is found, one that is not -/
+example : (T.find? 2 (.node 0 none none none [.node 1 none none none [.node 2 none none none []], .node 3 none none none []])).isSome
+    = true := by decide
+example : (T.find? 9 (.node 0 none none none [.node 1 none none none [.node 2 none none none []], .node 3 none none none []])).isNone
+    = true := by decide
+
+example : (ancIter (fun _ => true) false
+    (.node 0 none none none [.node 1 none none none [.node 2 none none none []], .node 3 none none none []]) 2).map
+      (List.map T.id) = some [1, 0] := by decide
+
+/-- the list-returning methods of `Tree`: `nodes(filter)` pre-order filtered, `leaf_nodes()` the leaves left to
+right, `edges(filter)`/`leaf_edges()` their edges -/
+theorem tree_lists_spec (keep : T → Bool) (ekeep : E → Bool) (t : T) :
+    treeNodes keep t = (pre t).filter keep
+    ∧ treeLeafNodes t = T.leaves t
+    ∧ treeEdges ekeep t = ((pre t).filter (fun n => ekeep ⟨n⟩)).map E.mk
+    ∧ treeLeafEdges t = (T.leaves t).map E.mk := by
+  refine ⟨preorder_spec keep t, ?_, (edge_order_spec ekeep t).1, ?_⟩
+  · unfold treeLeafNodes; rw [leaf_spec, filter_true]
+  · unfold treeLeafEdges; rw [leaf_spec, filter_true]
+
+example : (treeLeafEdges
+    (.node 0 none none none [.node 1 none none none [.node 2 none none none []], .node 3 none none none []])).map
+      (fun e => e.head.id) = [2, 3] := by decide
+
+/-- `internal_nodes(exclude_seed_node)`/`internal_edges(exclude_seed_edge)` of a tree (the seed has no parent):
+the non-leaves in pre-order, without the seed iff exclusion is requested -/
+theorem tree_internal_lists_spec (excl : Bool) (t : T) (hid : ∀ x ∈ T.nodesL t.cs, x.id ≠ t.id) :
+    treeInternalNodes excl t
+      = (if excl = true then [] else [t].filter (fun x => !x.isLeaf)) ++ (T.nodesL t.cs).filter (fun x => !x.isLeaf)
+    ∧ treeInternalEdges excl t = (treeInternalNodes excl t).map E.mk := by
+  refine ⟨?_, rfl⟩
+  unfold treeInternalNodes
+  rw [(internal_nodes_spec excl false (fun _ => true) t hid).1]
+  simp
+
+example : (treeInternalNodes true
+    (.node 0 none none none [.node 1 none none none [.node 2 none none none []], .node 3 none none none []])).map T.id = [1] := by
+  decide
 
 end DendroModel.C15
